@@ -7,7 +7,7 @@ BASE = json.load(open('/root/.vp/BASELINE.json')) if os.path.exists('/root/.vp/B
 # id -> (category, technique, text, note, design_ref)
 CHECKS = {
  "C01": ("exploration", "bounded-exhaustive shape enumeration on the real code + exhaustive tiny-field value enumeration",
-         "Every signer subset of every (n,t) up to the bound, 5 identifier kinds, dealer/split/DKG keys, on all six ciphersuites, each session checked by an independent single-signer verifier; plus sessions in which every object crosses the wire (binary / JSON) and sessions on refreshed / repaired key material; plus every key/coefficient/nonce value on GF(7)/GF(11) against a plain-u64 reference of the whole signing flow.",
+         "Every signer subset of every (n,t) up to the bound, 5 identifier kinds, dealer/split/DKG keys, on all six ciphersuites, each session checked by an independent single-signer verifier; plus sessions in which every object crosses the wire (binary / JSON), sessions on refreshed / repaired key material, preprocessed nonce batches, legacy packages and the Taproot tweak wrappers; plus every key/coefficient/nonce value on GF(7)/GF(11) against a plain-u64 reference of the whole signing flow.",
          "Real-curve scalars are an alphabet, not all values (value-genericity argument, DESIGN 2); curve crates, sha2/sha3, ed25519-dalek and libsecp256k1 are trusted.", "DESIGN 4 C01"),
 }
 CHECKS.update({
@@ -36,7 +36,7 @@ CHECKS.update({
 })
 CHECKS.update({
  "C07": ("exploration", "bounded-exhaustive shape enumeration of complete honest DKG runs on the real code with independent algebraic oracles",
-         "Every (n,t) up to the bound x 5 identifier kinds x seeds through each crate's three DKG parts (and the tiny field): all participants hold the identical public package; every key package is consistent; group key = sum of constant-term commitments (Taproot: BIP-341 key-path-only tweak recomputed with libsecp256k1 add_tweak); every entry = summed commitment polynomial evaluated independently; EVERY t-subset interpolates to the key and signs under an independent verifier; a 256-of-257 run with round-one packages over the wire.",
+         "Every (n,t) up to the bound x 5 identifier kinds x seeds through each crate's three DKG parts (and the tiny field): all participants hold the identical public package; every key package is consistent; group key = sum of constant-term commitments (Taproot: BIP-341 key-path-only tweak recomputed with libsecp256k1 add_tweak); every entry = summed commitment polynomial evaluated independently; EVERY t-subset interpolates to the key and signs under an independent verifier; runs in which an honest polynomial has a root at a peer's identifier (zero round-two share); a 256-of-257 run with round-one packages over the wire.",
          "Per-participant polynomials are seeded streams.", "DESIGN 4 C07"),
  "C08": ("fault_enumeration", "exhaustive fault enumeration over every (receiver, sender) pair x fault kind x field, against two concurrent honest runs",
          "Every ordered (receiver, sender) pair x ~30 fault kinds on both DKG rounds (both proof components, proof for every other identifier / other run, every commitment coefficient, lengths t-1/t+1 with and without valid proof, own-identifier filing in three forms and as a surplus entry, missing/surplus, misrouted / cross-run / cross-sender shares, consistently restricted or extended maps, a proof for the negated nonce commitment, proofs valid for a challenge over other layouts of the same fields, a commitment of 65536 + t coefficients with a valid proof and shares on it). The first consuming step must be Err, earlier steps must equal the honest run, culprits must be a subset of {sender} and exactly {sender} for proof and share faults.",
@@ -45,7 +45,7 @@ CHECKS.update({
 CHECKS.update({
  "C05": ("model_checking", "explicit-state exploration of two concurrent signing sessions on the real code against a reference acceptance predicate",
          "Two concurrent sessions A,B of the same signers: every A/B filling of every commitment slot x message (packages), every Sign(i,P,nonces_X), every VerifyShare(P,i,z) for z in the universe of all shares signer i can be made to produce, every Aggregate(P,zvec) over the full product of universes; acceptance must equal 'produced for exactly this package'. Plus every single-field substitution and the signer-side refusals incl. slot permutations and identity commitments in every slot.",
-         "Two sessions, |S|<=3; a permutation of honest shares among slots leaves the sum valid and is not asserted to fail (C04 allows it).", "DESIGN 4 C05"),
+         "Two sessions, |S|<=3; a permutation of honest shares among the package's own slots leaves the sum valid and is not asserted to fail (C04 allows it); a share re-filed under an identifier OUTSIDE the package must be rejected in every mode, with the current and the legacy public key package.", "DESIGN 4 C05"),
  "C09": ("model_checking", "explicit exploration of all delivery histories of two concurrent honest DKG runs on the real part2/part3 against a reference predicate",
          "n in {3,4}, every (t_A,t_B): per participant and own run every {A,B,absent} assignment of every round-one slot and, for each accepted one, every ({A,B} x addressee | absent) assignment of every round-two slot; part2/part3 acceptance must equal the independently computed predicate, accepted histories must yield internally consistent key material, and whenever the ciphersuite crate's part2 / part3 and the frost-core generic both succeed on a delivery they must return identical outputs; for every common round-one set all participants complete with identical public packages and every t-subset signs.",
          "Honest senders only (malformed contributions are C08); the decomposition over participants is checked on the code in every run.", "DESIGN 4 C09"),
@@ -63,7 +63,7 @@ CHECKS.update({
          "Suites x share alphabet x 10 random sources (counter streams, constant, repeating 32- and 5-byte blocks, zero-then-good, A,A,B and A,B,A patterns) x call sequences (commit, repeated commit, preprocess(k) for k in {0,1,2,5,255}, mixed): the byte stream handed out must be 64 bytes per pair and hiding_j / binding_j must equal an independently written H3 of the j-th / next 32 bytes followed by the share encoding; commitments = G*nonce; k pairs; (bytes, share) -> nonce is injective over the case; no zero nonce / identity commitment.",
          "The independent H3 uses the curve crates' scalar reduction and sha2/shake, none of frost-*.", "DESIGN 4 C15"),
  "C16": ("exploration", "environment-answer exploration: every RNG-taking entry point under stream pairs and EVERY single-draw deviation",
-         "10 entry points x suites x (n,t): same stream => identical output; other stream => every listed secret-derived value changes; values within a call pairwise distinct; >= 16 bytes per secret; every single-draw deviation (each draw j answered from another stream, all others unchanged) changes the output; zero answers to key / proof-nonce draws are rejected and re-drawn; batch verification draws one fresh blinder per item (also for adjacent items under one key and a repeated item); source answers outside the scalar range (all ones, order+1) never become a zero scalar and leave every entry point usable with pairwise distinct values; outputs equal those of a separate process.",
+         "10 entry points x suites x (n,t): same stream => identical output; other stream => every listed secret-derived value changes; values within a call pairwise distinct; >= 16 bytes per secret; every single-draw deviation (each draw j answered from another stream, all others unchanged) changes the output; zero answers to key / proof-nonce draws are rejected and re-drawn; batch verification draws one fresh blinder per item (also for adjacent items under one key and a repeated item; batches of up to 300 items); repair with a reordered helper list; source answers outside the scalar range (all ones, order+1) never become a zero scalar and leave every entry point usable with pairwise distinct values; outputs equal those of a separate process.",
          "'Nowhere else' is decided as determinism under a scripted source within one process; blinder values are decided exactly only on the tiny field (C19).", "DESIGN 4 C16"),
 })
 CHECKS.update({
@@ -79,7 +79,7 @@ CHECKS.update({
          "Sizes 0..N x 3 key layouts (distinct, round-robin, adjacent same key): valid batch, one invalid item at every position x 6 kinds, every pair of positions with complementary / swapped errors; accept <=> every item verifies (library + independent verifier), verify_single <=> verify (Taproot: also signatures held in memory with odd-Y R); boundary blinder values and out-of-range source answers injected through the scripted source do not change the verdict. On GF(7)/GF(11)/GF(13) every blinder vector is fed through the scripted source: valid batches accepted by all, invalid ones (every error pattern over {0,1,-1,2}^k) by at most q^(k-1).",
          "The 2^-128 bound on real curves is inferred (generic code + fresh full-width draw per item, C16); exact only on the tiny field.", "DESIGN 4 C19"),
  "C20": ("exploration", "enumeration of secret-bearing types x shapes x operations with an allocator wrapper reading the freed storage, ManuallyDrop controls",
-         "10 secret-bearing types (incl. the refresh form of the round-one secret package, t = n shapes, packages built with thresholds 0 / 1 / 65535 or commitments shorter than the coefficients, and packages decoded from bytes / JSON) x suites x seeds: on drop no freed block contains the in-memory image of any secret scalar (control without destructor must show it, and the box must have been observed); zeroize() leaves every secret getter zero and nothing secret re-encodable; the package's own coefficient block (identified by address) shows no coefficient when part two of the DKG / refresh consumes the package; Debug / alternate Debug contain no rendering of any secret scalar.",
+         "10 secret-bearing types (incl. the refresh form of the round-one secret package, t = n shapes, packages built with thresholds 0 / 1 / 65535 or commitments shorter than the coefficients, and packages decoded from bytes / JSON) x suites x seeds: on drop no freed block contains the in-memory image of any secret scalar (control without destructor must show it, and the box must have been observed); zeroize() leaves every secret getter zero and nothing secret re-encodable; the package's own coefficient block (identified by address) shows no coefficient when part two of the DKG / refresh consumes the package; Debug under 14 formatter-flag combinations contains no rendering (hex either case and order, decimal byte list, 16-digit prefix) of any secret scalar.",
          "Stack / register copies and library-internal temporaries are not 'the storage it occupied' and are only recorded.", "DESIGN 4 C20"),
 })
 CHECKS.update({
